@@ -456,8 +456,10 @@ type Contract struct {
 	LoopMod    map[int][]string
 	PanicsOK   bool
 	PureFuncs  []string // function-valued parameters / variables assumed pure (`pure f, g`)
+	CheckGo    bool   // spawned calls are executed on a forked state for their obligations
 	ArithWrap  bool   // integer arithmetic wraps around (exact two's complement) instead of raising overflow obligations
 	FirstDefer string // the body must start with `defer <this function>(...)`
+	DeletePre  map[string][]Clause // obligations at every delete from a map held in a field of that name ($key, $map)
 	WritePre   map[string][]Clause // obligations at every assignment to a field of that name
 	CallPre    map[string][]Clause // emit-preconditions: callee name[.ordinal] -> clauses over the caller's variables and the callee's parameters
 	Props      []string
@@ -473,10 +475,11 @@ type Guard struct {
 }
 
 type ChanInv struct {
-	Pkg  string
-	Elem string // element type text
-	Var  string
-	Inv  Clause
+	Pkg    string
+	Elem   string // element type text
+	Var    string
+	Inv    Clause
+	Assume bool // chanassume: assumed at receives only (environment assumption), not asserted at sends
 }
 
 type GhostField struct {
@@ -502,7 +505,7 @@ type ContractFile struct {
 
 var clauseKW = map[string]bool{"contract": true, "extern": true, "requires": true, "ensures": true, "assigns": true,
 	"loop": true, "pred": true, "func": true, "ufunc": true, "axiom": true, "guards": true, "lockinv": true, "rely": true,
-	"chaninv": true, "ghost": true, "trusted": true, "panics": true, "props": true, "quiet": true, "pure": true, "firstdefer": true, "callpre": true, "arith": true, "writepre": true}
+	"chaninv": true, "chanassume": true, "ghost": true, "trusted": true, "panics": true, "props": true, "quiet": true, "pure": true, "firstdefer": true, "checkgo": true, "callpre": true, "arith": true, "writepre": true, "deletepre": true}
 
 func firstWord(s string) string {
 	s = strings.TrimSpace(s)
@@ -718,6 +721,10 @@ func parseContractText(data, path, pkg string) (*ContractFile, error) {
 			if cur != nil {
 				cur.FirstDefer = rest
 			}
+		case "checkgo":
+			if cur != nil {
+				cur.CheckGo = true
+			}
 		case "arith":
 			if cur != nil && rest == "wrap" {
 				cur.ArithWrap = true
@@ -726,6 +733,23 @@ func parseContractText(data, path, pkg string) (*ContractFile, error) {
 			if cur != nil {
 				cur.PureFuncs = append(cur.PureFuncs, strings.Fields(strings.ReplaceAll(rest, ",", " "))...)
 			}
+		case "deletepre":
+			if cur == nil {
+				return nil, fail(i, fmt.Errorf("deletepre outside contract"))
+			}
+			ci := strings.Index(rest, ":")
+			if ci < 0 {
+				return nil, fail(i, fmt.Errorf("deletepre needs ':'"))
+			}
+			field := strings.TrimSpace(rest[:ci])
+			c, err := mkClause(rest[ci+1:])
+			if err != nil {
+				return nil, fail(i, err)
+			}
+			if cur.DeletePre == nil {
+				cur.DeletePre = map[string][]Clause{}
+			}
+			cur.DeletePre[field] = append(cur.DeletePre[field], c)
 		case "writepre":
 			if cur == nil {
 				return nil, fail(i, fmt.Errorf("writepre outside contract"))
@@ -896,7 +920,7 @@ func parseContractText(data, path, pkg string) (*ContractFile, error) {
 			} else {
 				curGuard.Rely = append(curGuard.Rely, c)
 			}
-		case "chaninv":
+		case "chaninv", "chanassume":
 			// chaninv ElemType v: expr
 			ci := strings.Index(rest, ":")
 			if ci < 0 {
@@ -910,7 +934,7 @@ func parseContractText(data, path, pkg string) (*ContractFile, error) {
 			if err != nil {
 				return nil, fail(i, err)
 			}
-			cf.ChanInvs = append(cf.ChanInvs, &ChanInv{Pkg: pkg, Elem: w[0], Var: w[1], Inv: c})
+			cf.ChanInvs = append(cf.ChanInvs, &ChanInv{Pkg: pkg, Elem: w[0], Var: w[1], Inv: c, Assume: kw == "chanassume"})
 		case "ghost":
 			// ghost Type.name type
 			w := strings.Fields(rest)
